@@ -185,3 +185,7 @@ CLAIMED["C01"]["note"] = CLAIMED["C01"]["note"].replace("The lower-bound theorem
 CLAIMED["C02"]["text"] = CLAIMED["C02"]["text"].replace("PROVED from the real AST: the callees the recurrence rests on",
     "PROVED from the real AST: _make_prec_graph - the vertices of the precedence graph are exactly the families occurring in some leaf and there is an edge a -> b exactly when a and b are consecutive in some leaf synteny "
     "(nested loops over the mapping's values and over zip(s[0:-1], s[1:]), invariants over an arbitrary enumeration of the leaves); and the callees the recurrence rests on")
+
+CLAIMED["C03"]["text"] = CLAIMED["C03"]["text"].replace("PROVED from the real AST: _compute_lca_sets",
+    "PROVED from the real AST: _compute_gain_sets - every family that occurs in a leaf is gained at exactly one node, the deepest common ancestor of the leaves carrying it, and nothing else is gained "
+    "(three loops over arbitrary enumerations of a dict / a defaultdict of sets, the LCA query through its assumed C17 contract); _compute_lca_sets")
